@@ -206,7 +206,7 @@ def e2e_family(pid, v, tier):
         return None
     d = ex["failing_input"]
     return {"found": True,
-            "counterexample": {"configuration": {k: d[k] for k in d if k != "files"}, "files": d.get("files"), "what": ex.get("what"), "detail": ex.get("detail")},
+            "counterexample": {"configuration": {k: d[k] for k in d if k != "files"}, "files": d.get("files"), "what": ex.get("what")},
             "native_replay": {"how": "the generated project tree is written to a scratch directory and run through `breadlog --check`, `breadlog`, `breadlog --check`, `breadlog` "
                                      "(release build of the current tree), from a foreign working directory with a private TMPDIR", "observed": ex.get("what")},
-            "replay_cmd": "python3 %s/replay/e2e_replay.py %s %s %d %d" % (os.path.dirname(os.path.dirname(os.path.abspath(__file__))), ex.get("family"), ex.get("tier"), ex.get("seed", 0), ex.get("index", 0))}
+            "replay_cmd": "python3 %s/replay/e2e_replay.py %s %s %s %d %d" % (os.path.dirname(os.path.dirname(os.path.abspath(__file__))), ex.get("family"), ex.get("pid") or pid, ex.get("tier"), ex.get("seed", 0), ex.get("index", 0))}
